@@ -16,6 +16,14 @@ pub fn main_entry() {
         eprintln!("usage: tpv <engine> [--tier T --seed N --shard i --nshards n --out f --replay f --budget-s S]");
         std::process::exit(2);
     }
+    if argv[0] == "c05-names" {
+        engines::c05::debug_names(argv.get(1).and_then(|s| s.parse().ok()).unwrap_or(1));
+        return;
+    }
+    if argv[0] == "c05-child" {
+        ctx::install_panic_hook();
+        std::process::exit(engines::c05::child(&argv[1..]));
+    }
     if argv[0] == "c10-child" {
         std::process::exit(engines::c10::child(&argv[1..]));
     }
